@@ -56,24 +56,41 @@ Proof. exact race_refuted. Qed.
 (* non-vacuity, with the package's default parameters *)
 Definition default_params := mkP wc_max_batch_threshold wc_max_batch_count wc_max_batch_size.
 
+Definition ex_labels := [LPut 0 100%N; LPut 1 200000%N; LPut 0 100%N; LPut 2 300%N].
 Example C17_example_reachable_quiescent :
-  exists s, run default_params [LPut 0 100; LPut 1 200000; LPut 0 100; LPut 2 300] init = Some s /\
-            quiescent s /\ csize s = 200400%N /\ tok s = false.
-Proof. eexists. vm_compute. repeat split. Qed.
+  match run default_params ex_labels init with
+  | Some s => quiescentb s && N.eqb (csize s) 200400 && negb (tok s)
+  | None => false
+  end = true.
+Proof. vm_compute. reflexivity. Qed.
 
 Example C17_example_round :
   round_batches default_params [(0, 100%N); (2, 300%N); (1, 200000%N)] = [[0; 2]; [1]].
 Proof. vm_compute. reflexivity. Qed.
 
-(* failed flush, abort of the round, recovery: reachable, quiescent, and then emptied *)
-Example C17_example_failed_then_flushed :
-  let p := mkP 600 2 8388608 in
-  exists s1 c1 s2 c2,
-    orun p [LPut 0 211; LPut 1 221; LPut 2 231; LPut 3 1012] (Some init) = Some s1 /\
-    seq_round p (fun b => mem 0 b) s1 = Some (s2, c1) /\ c1 = [([0; 1], false)] /\ tok s2 = true /\ infl s2 = [] /\
-    exists s3, step p LTick s2 = Some s3 /\
-    exists s4, seq_round p (fun _ => false) s3 = Some (s4, c2) /\ fs s4 = [] /\ csize s4 = 0%N.
-Proof. do 4 eexists. vm_compute. repeat split. eexists. split; [reflexivity|]. eexists. repeat split. Qed.
+(* failed flush, abort of the round, back-off, recovery: reachable, quiescent, and then emptied *)
+Definition ex_p := mkP 600 2 8388608.
+Definition ex_failed_then_flushed : bool :=
+  match run ex_p [LPut 0 211%N; LPut 1 221%N; LPut 2 231%N; LPut 3 1012%N] init with
+  | None => false
+  | Some s1 =>
+      match seq_round ex_p (fun b => mem 0 b) s1 with
+      | None => false
+      | Some (s2, c1) =>
+          match c1 with [([0; 1], false)] => true | _ => false end && tok s2 &&
+          match infl s2 with [] => true | _ => false end && N.eqb (csize s2) 1675 &&
+          match step ex_p LTick s2 with
+          | None => false
+          | Some s3 =>
+              match seq_round ex_p (fun _ => false) s3 with
+              | None => false
+              | Some (s4, _) => match fs s4 with [] => true | _ => false end && N.eqb (csize s4) 0 && quiescentb s4
+              end
+          end
+      end
+  end.
+Example C17_example_failed_then_flushed : ex_failed_then_flushed = true.
+Proof. vm_compute. reflexivity. Qed.
 
 (* the three defects repaired in /repo, on the model of the old code *)
 Example C17_old_scheduler_loses_last :
